@@ -326,6 +326,8 @@ class Gen:
                 add("zerobranch", "zerofree", 2)
             if len(self.names) >= 2:
                 add("fixedct", "zerofree", 2)
+            if len(self.unused(free)) >= 2 - (1 if free else 0):
+                add("ctlist", "tensor")
             if len(self.unused(free)) >= 2:
                 add("zerodims", "zerofree", 2)
             if len(self.unused(free)) >= 1:
@@ -357,6 +359,8 @@ class Gen:
                 add("nabla_grad", "deriv")
             if len(shape) < 3 and not free:
                 add("divt", "deriv")
+            if shape == (2,) and free:
+                add("perp_free", "compound")
             if len(shape) == 1 and not free:
                 add("matvec", "compound")
                 add("dotmv", "compound")
@@ -537,6 +541,24 @@ class Gen:
             other = e((), free, d)
             c = self.safe_cond()
             return ["cond", c, z, other] if self.chance(1, 2) else ["cond", c, other, z]
+        if op == "ctlist":
+            # as_tensor(L[i], (j,))[p] with L a list tensor whose entries carry the free index j: the component tensor binds
+            # j while the list is indexed by an index it does not bind
+            un = self.unused(free)
+            j = self.pick(un)
+            if free and (len(un) < 2 or self.chance(1, 2)):
+                i = self.pick(list(free))
+                summed = False
+            else:
+                i = self.pick([n for n in un if n != j])
+                summed = True
+            L = ["list", [self.leaf((), (j,)) if self.chance(1, 2) else e((), (j,), min(d, 1)) for _ in range(g)]]
+            ct = ["as_tensor", ["index", L, [i]], [j]]
+            out = ["index", ct, [self.draw(st.integers(0, g - 1))]]
+            if summed:
+                out = ["mul", out, self.leaf((), (i,))]
+            rest = tuple(n for n in free if n != i)
+            return ["mul", out, self.leaf((), rest)] if rest else out
         if op == "zerodims":
             # a Zero with two free indices of *different* extents (g and g+1), alive in a conditional branch
             m = g + 1
@@ -603,7 +625,18 @@ class Gen:
                          self.leaf((), (r,))]
             if rest:
                 inner_sum = ["mul", inner_sum, self.leaf((), rest)]
-            k = self.pick(["ct", "ct", "sumct", "fixed", "survivor", "survivor"])
+            k = self.pick(["ct", "ct", "sumct", "fixed", "survivor", "survivor", "sumvec", "sumvec"])
+            if k == "sumvec":
+                # a vector written with implicit summation, w = v[r] * M[r, :], indexed by the same index: w[r]
+                w_ = ["mul", ["index", self.leaf((g,), ()), [r]], ["index", self.leaf((g, g), ()), [r, ":"]]]
+                if self.chance(1, 3):
+                    w_ = ["add", w_, self.leaf((g,), ())]
+                x = ["index", w_, [r]]
+                if rest:
+                    x = ["mul", x, self.leaf((), rest)]
+                if outer_sum:
+                    return ["mul", x, self.leaf((), (r,))]
+                return x
             if k == "survivor":
                 # A = as_tensor(<something containing a component tensor that binds r and is not itself resolved>, (j,));
                 # A[r]: replacing j by r must not let the surviving inner binder capture the new r
@@ -708,6 +741,9 @@ class Gen:
             return ["dot", e((shape[0], m), (), d), e((m,), (), d)]
         if op == "perp":
             return ["perp", e((2,), (), d)]
+        if op == "perp_free":
+            # an operator that is declared index free, applied to an operand with free indices
+            return ["perp", e((2,), free, d)]
         if op == "cross":
             return ["cross", e((3,), (), d), e((3,), (), d)]
         if op == "curl_s":
